@@ -11,6 +11,7 @@ import (
 	"fmt"
 	"os"
 	"strconv"
+	"strings"
 	"sync/atomic"
 	"syscall"
 	"testing"
@@ -53,6 +54,8 @@ type Summary struct {
 	Violations []ViolationRec `json:"violations,omitempty"`
 	Samples    []Sample       `json:"samples,omitempty"`
 	Nondeterm  []int          `json:"nondeterministic,omitempty"`
+	NondetInfo []string       `json:"nondeterministic_info,omitempty"`
+	SelectTies int            `json:"select_ties"`
 	Rechecked  int            `json:"rechecked"`
 	WallS      float64        `json:"wall_s"`
 	Meta       *run.Meta      `json:"meta,omitempty"`
@@ -134,13 +137,25 @@ func batch(t *testing.T) {
 		p.Free = *fFree
 		cur.Store(int64(idx))
 		curStart.Store(time.Now().UnixNano())
+		recheck := !*fFree && *fRecheck > 0 && n%*fRecheck == 0
+		run.KeepLog = recheck
 		r := run.Execute(t, p, false)
-		if !*fFree && *fRecheck > 0 && n%*fRecheck == 0 {
+		if recheck {
 			r2 := run.Execute(t, p, false)
+			run.KeepLog = false
 			sum.Rechecked++
 			if r2.Digest != r.Digest {
-				sum.Nondeterm = append(sum.Nondeterm, idx)
+				at, x, y := run.FirstDiff(r.Log, r2.Log)
+				if run.IsSelectTie(x, y) {
+					sum.SelectTies++
+				} else {
+					sum.Nondeterm = append(sum.Nondeterm, idx)
+					if len(sum.NondetInfo) < 3 {
+						sum.NondetInfo = append(sum.NondetInfo, fmt.Sprintf("plan %d line %d: %q vs %q", idx, at, x, y))
+					}
+				}
 			}
+			r.Log, r2.Log = nil, nil
 		}
 		sum.Runs++
 		sum.Steps += int64(r.Steps)
@@ -237,7 +252,11 @@ func gen(t *testing.T) {
 		return
 	}
 	run.Init()
+	run.KeepLog = os.Getenv("VERIF_DUMPLOG") != ""
 	r := run.Execute(t, p, false)
+	if f := os.Getenv("VERIF_DUMPLOG"); f != "" {
+		_ = os.WriteFile(f, []byte(strings.Join(r.Log, "\n")+"\n"), 0o644)
+	}
 	if err := run.WriteJSON(*fOut, r); err != nil {
 		t.Fatal(err)
 	}
